@@ -66,6 +66,7 @@ var programs = []struct {
 	{"e", mainProg([]string{"pe"}, "\treturn pe.E3(a) + pe.E2(b)\n")},
 	{"fc", mainProg([]string{"pf", "pc"}, "\treturn pf.J(a) + pc.G(b)\n")},
 	{"consts", "package main\n\nconst (\n\tC1 = 17\n\tC2 = 99\n\tC3 = 250\n)\n\nfunc main(a, b uint8) (uint8, uint8) {\n\tx := a + C1\n\ty := b * C2\n\tif x > C3 {\n\t\treturn x ^ 85, y + 1\n\t}\n\treturn y - 3, x & 7\n}\n"},
+	{"constsizes", "package main\n\nconst golden = 0x9e3779b9\n\nconst wide = 0x9e3779b97f4a7c15\n\nfunc main(a int64, b uint32) (int64, uint32, uint64, int128, int16) {\n\tk := int16(a) + 0x9e\n\treturn a + int64(golden), b ^ golden, (uint64(a) ^ wide) + uint64(golden), int128(a) + int128(wide) + int128(golden), k + int16(0x9e)\n}\n"},
 	{"samename", mainProg([]string{"left", "right"}, "\treturn left.L(a) + right.R(b)\n")},
 	{"widths", widthsProg()},
 	{"crypto", mainProg([]string{"crypto/aes", "crypto/hmac"}, "\treturn a + b + aes.BlockSize\n")},
@@ -337,16 +338,36 @@ func work(ctx *runner.Ctx) {
 				emit(cs{Mode: "deviate", Prog: p, Events: []int{e}, Sels: []int{s}})
 			}
 		}
+		// pairs of deviating events: thorough every pair of alternatives (crypto: the first three alternatives of
+		// each event); quick the first two alternatives of each event
+		capSel := 1 << 30
+		if ctx.Quick() {
+			capSel = 2
+		} else if programs[p].name == "crypto" {
+			capSel = 3
+		}
+		if !(ctx.Quick() && programs[p].name == "crypto") {
+			for e1 := 0; e1 < len(alts); e1++ {
+				for e2 := e1 + 1; e2 < len(alts); e2++ {
+					for s1 := 1; s1 < alts[e1] && s1 <= capSel; s1++ {
+						for s2 := 1; s2 < alts[e2] && s2 <= capSel; s2++ {
+							emit(cs{Mode: "deviate", Prog: p, Events: []int{e1, e2}, Sels: []int{s1, s2}})
+						}
+					}
+				}
+			}
+		}
+		// triples (thorough): the first two alternatives of each event
 		if d >= 2 && programs[p].name != "crypto" {
 			for e1 := 0; e1 < len(alts); e1++ {
 				for e2 := e1 + 1; e2 < len(alts); e2++ {
-					for s1 := 1; s1 < alts[e1]; s1++ {
-						for s2 := 1; s2 < alts[e2]; s2++ {
-							// pairs: cap the cross product per event pair
-							if (s1 > 3 && s2 > 3) || alts[e1]*alts[e2] > 200 && (s1+s2)%5 != 0 {
-								continue
+					for e3 := e2 + 1; e3 < len(alts); e3++ {
+						for s1 := 1; s1 < alts[e1] && s1 <= 2; s1++ {
+							for s2 := 1; s2 < alts[e2] && s2 <= 2; s2++ {
+								for s3 := 1; s3 < alts[e3] && s3 <= 2; s3++ {
+									emit(cs{Mode: "deviate", Prog: p, Events: []int{e1, e2, e3}, Sels: []int{s1, s2, s3}})
+								}
 							}
-							emit(cs{Mode: "deviate", Prog: p, Events: []int{e1, e2}, Sels: []int{s1, s2}})
 						}
 					}
 				}
@@ -355,7 +376,7 @@ func work(ctx *runner.Ctx) {
 		emit(cs{Mode: "xproc", Prog: p})
 	}
 	// histories on one Compiler instance / on shared Params
-	hp := []int{0, 1, 2, 3, 4, 5, 6, 7, 8}
+	hp := []int{0, 1, 2, 3, 4, 5, 6, 7, 8, 9}
 	for _, share := range []string{"compiler", "params"} {
 		for _, last := range hp {
 			for _, h1 := range hp {
@@ -368,7 +389,7 @@ func work(ctx *runner.Ctx) {
 			}
 		}
 	}
-	ctx.Note(fmt.Sprintf("enumerated %d cases (all shards); deviation bound d=%d", idx, d))
+	ctx.Note(fmt.Sprintf("enumerated %d cases (all shards); deviating events per compilation <= %d", idx, d+1))
 }
 
 func replay(ctx *runner.Ctx, raw json.RawMessage) {
@@ -384,7 +405,7 @@ func main() {
 	runner.Main(runner.Spec{
 		ID:    "C08",
 		Level: "model_checking",
-		Rule: "the compiler packages are rewritten so that every `range` over a map (14 sites) and the package directory listing return their keys in an order chosen by the harness (canonical = sorted; alternatives = all n! orders for n <= 4 keys, else reversal, rotations, adjacent transpositions). For 7 (thorough 8) programs importing 1..4 packages with package-level vars/consts (incl. a multi-file package, a nested import and two repository packages) EVERY compilation with <= d deviating range events (d=1 quick, 2 thorough) is executed and compared byte for byte (circuit, SSA listing, I/O description, error) with the canonical compilation; every history of <= 1 (thorough 2) earlier compilations on the same Compiler instance and on shared Params; each program once more in a separate process. " +
+		Rule: "the compiler packages are rewritten so that every `range` over a map (14 sites) and the package directory listing return their keys in an order chosen by the harness (canonical = sorted; alternatives = all n! orders for n <= 4 keys, else reversal, rotations, adjacent transpositions). For 10 (thorough 11) programs importing 1..4 packages with package-level vars/consts (incl. a multi-file package, a nested import, two different packages with the same base name, one constant value used at several sizes and signednesses, multiplications/divisions at many widths, and two repository packages) EVERY compilation with one deviating range event, every compilation with two deviating events (quick: restricted to the first two alternative orders of each event; thorough: all alternatives; the 34-event crypto program: first three) and, thorough only, every compilation with three deviating events each taking one of its first two alternative orders, is executed and compared byte for byte (circuit, SSA listing, I/O description, error) with the canonical compilation; every history of <= 1 (thorough 2) earlier compilations on the same Compiler instance and on shared Params; each program once more in a separate process. " +
 			"For this level: states = distinct (program, deviation set) explored, transitions = range events executed, traces_validated = compilations run on the real compiler",
 		Assumptions: []string{
 			"map iteration order, directory listing order and earlier in-process compilations are the only nondeterminism sources considered (no goroutines, clocks or addresses influence the compiler's output: checked by the separate-process comparison)",
